@@ -185,6 +185,11 @@ def fromLeBytes (l : List Nat) : Nat := fromBeBytes l.reverse
 /-- `slice.try_into().unwrap()` into `[u8; n]`: panics unless the length is `n` -/
 def arrayOfSlice {α : Type} (n : Nat) (l : List α) : M (List α) := if l.length = n then pure l else panic
 
+/-- `dst[a..b].copy_from_slice(src)` (`dst.copy_from_slice(src)`: `a = 0`, `b = len`): panics unless `a ≤ b ≤ len` and
+    the lengths agree -/
+def copyFromSlice {α : Type} (dst : List α) (a b : Nat) (src : List α) : M (List α) :=
+  if a ≤ b ∧ b ≤ dst.length ∧ src.length = b - a then pure (dst.take a ++ src ++ dst.drop b) else panic
+
 /-- `v.remove(i)`: the removed element and the rest; panics when out of range -/
 def vecRemove {α : Type} (l : List α) (i : Nat) : M (α × List α) :=
   match l[i]? with
